@@ -11,9 +11,20 @@ Round 2: the geometry functions duplicated in this model are proved equal to the
 full on the fault-free machine (mesh or torus, every size, radius, tape), together with the absence of every
 non-oracle error of `ner_net` / of `route()` on the fault-free machine.
 `aStar_complete` and `aStar_only_disconnected` are proved for every machine.
-NOT proved (validated per case by the oracle): chip-distinctness / connectedness after the repair
-loop (`avoidDeadLinks_valid`, false on the unrepaired code: defect F3), absence of the non-`Disconnected`
-model errors of the repair loop itself (dfs fuel, "Cycle created" assertion) when the dead-link repair runs.
+Round 3 (the repair loop, fixed code `legacy = false`): the forest invariant of `avoid_dead_links` (`L.RInv`:
+one entry per chip, one parent per node, no cycle, component roots = tree root + heads of the broken links not
+yet reconnected, every entry below one of them) is established by the disconnecting copy and preserved by the
+reconnection of one broken link for every A* outcome (detours through the orphaned subtree included) and every
+processing order; `avoidDeadLinks_valid`: whenever `routeNet` returns after a repair the forest unfolds to a tree
+satisfying ALL clauses of `ValidTree`; `route_only_failure` for every machine: the only non-oracle error is
+`Disconnected`, and none on a strongly connected machine; `stronglyConnected` is proved complete as well as
+sound; `legacy_two_parents_witness`: the unfixed loop really yields a node with two parent links.
+`routeNet_valid`: with the source and the destinations on working chips, EVERY successful run of the model of
+`route()` (repair entered or not, any machine) returns a valid routing tree (for the unrepaired case on a machine
+with faults this needs `nerNet_leaves_are_dests`: childless nodes of the `ner_net` forest are destinations).
+Nothing about the model of the fixed code is left unproved; what is validated (not proved) is the correspondence
+of the model with the Python code (stage-wise differential testing with recorded tapes and set orders) and that
+`route()` treats the nets of a call independently.
 -/
 import RigModel.Model.C03
 import RigModel.Lemmas.C03Tree
@@ -26,6 +37,14 @@ import RigModel.Lemmas.C03NerValid
 import RigModel.Lemmas.C03AStarComplete
 import RigModel.Lemmas.C03AStarTotal
 import RigModel.Lemmas.C03Strong
+import RigModel.Lemmas.C03Surgery
+import RigModel.Lemmas.C03RepairInv
+import RigModel.Lemmas.C03RepairValid
+import RigModel.Lemmas.C03RepairTotal
+import RigModel.Lemmas.C03CopyTotal
+import RigModel.Lemmas.C03RouteTotal
+import RigModel.Lemmas.C03StrongComplete
+import RigModel.Lemmas.C03NerLeaf
 import RigModel.Props.Cross03_11
 set_option linter.unusedSimpArgs false
 set_option linter.unusedVariables false
@@ -112,7 +131,8 @@ theorem routeNet_repaired_live (m : Machine) (src : Chip) (dests : List Chip) (r
     ForestLive m r.forest :=
   L.routeNet_repaired_live m src dests radius t order sinks legacy r h hr
 
-/- Full statement aimed at (DESIGN 3/C03), NOT proved (and false for `legacy = true`, defect F3):
+/- Full statement aimed at (DESIGN 3/C03) - proved in round 3 as `routeNet_valid` / `avoidDeadLinks_valid` below
+   (it is false for `legacy = true`, defect F3: `legacy_two_parents_witness`); at the time of this theorem:
    theorem routeNet_valid : routeNet m src dests radius t order sinks false = .ok r →
      (placements on working chips, dests = chips of the sinks) →
      toTree r.forest r.leaves n r.root = some t → ValidTree m src sinks t
@@ -368,5 +388,261 @@ theorem aStar_succeeds (m : Machine) (hs : stronglyConnected m = true) (sink hsr
 
 /-- non-vacuity: a 3 x 3 machine with a dead chip and dead links that is still strongly connected -/
 example : stronglyConnected ⟨3, 3, [(1, 1)], [((0, 0), 0), ((2, 2), 3)]⟩ = true := by decide +kernel
+
+/-! ## Round 3: the dead-link repair loop (`avoid_dead_links`, fixed code) yields a valid routing tree -/
+
+/-- **An A\* path is simple**: it visits no chip twice and does not pass through the sink (the orphan being
+reconnected) - for every machine. -/
+theorem aStar_path_simple (m : Machine) (sink hsrc : Chip) (sources : List Chip) (wrap : Bool)
+    (path : List (Nat × Chip)) (hsink : InRange m sink) (hns : sources.contains sink = false)
+    (h : aStar sink hsrc sources m wrap = .ok path) :
+    (path.map (·.2)).Nodup ∧ sink ∉ path.map (·.2) :=
+  L.aStar_path_nodup m sink hsrc sources wrap path hsink hns h
+
+/-- **The forest invariant of the repair loop** (`L.RInv f R`): `f` has one entry per chip, the children of a
+node are pairwise distinct, every node has at most one parent, a rank decreases along every edge (no cycle),
+every edge arrives at an entry; the chips of `R` are pairwise distinct parentless entries (component roots) and
+every entry is below one of them.  Spelled out: -/
+theorem RInv_iff (f : Forest) (R : List Chip) : L.RInv f R ↔
+    ((∃ rank : Chip → Nat, f.keys.Nodup ∧ (∀ n, n ∈ f → (n.2.map (·.2)).Nodup) ∧
+        (∀ n n' k k', n ∈ f → n' ∈ f → k ∈ n.2 → k' ∈ n'.2 → k.2 = k'.2 → n.1 = n'.1) ∧
+        (∀ n k, n ∈ f → k ∈ n.2 → rank k.2 < rank n.1)) ∧
+     (∀ n k, n ∈ f → k ∈ n.2 → k.2 ∈ f.keys) ∧ R.Nodup ∧
+     (∀ r, r ∈ R → r ∈ f.keys ∧ ∀ n k, n ∈ f → k ∈ n.2 → k.2 ≠ r) ∧
+     (∀ x, x ∈ f.keys → ∃ r, r ∈ R ∧ L.Below f r x)) := by
+  constructor
+  · rintro ⟨⟨rank, hw⟩, hc, hn, hr, hb⟩
+    exact ⟨⟨rank, hw.keys, hw.kidsNodup, hw.oneParent, hw.rank⟩, fun n k hn hk => hc n.1 k ⟨n, hn, rfl, hk⟩, hn,
+      fun r h => ⟨(hr r h).1, fun n k hn hk => (hr r h).2 n.1 k ⟨n, hn, rfl, hk⟩⟩, hb⟩
+  · rintro ⟨⟨rank, h1, h2, h3, h4⟩, hc, hn, hr, hb⟩
+    refine ⟨⟨rank, h1, h2, h3, h4⟩, ?_, hn, ?_, hb⟩
+    · rintro p k ⟨n, hn, rfl, hk⟩; exact hc n k hn hk
+    · intro r h
+      refine ⟨(hr r h).1, ?_⟩
+      rintro p k ⟨n, hn, rfl, hk⟩; exact (hr r h).2 n k hn hk
+
+/-- **The disconnecting copy establishes the invariant.**  Whenever `copy_and_disconnect_tree` returns (for ANY
+input forest): its root is the given root chip, and the lookup satisfies the forest invariant with component
+roots = the root and the (pairwise distinct) heads of the broken links. -/
+theorem copyAndDisconnect_forest (old : Forest) (root : Chip) (m : Machine) (cs : CopyState)
+    (h : copyAndDisconnect old root m = .ok cs) :
+    cs.root = some root ∧ L.RInv cs.lookup (root :: cs.broken.map (·.2)) :=
+  L.copyAndDisconnect_inv old root m cs h
+
+/-- **One broken link (the body of the repair loop) preserves the invariant** and removes the orphan from the
+component roots: A* from the rest of the forest to the orphan `pc.2`, then re-parenting along the detour - new
+chips get new nodes, chips of the orphaned subtree the detour runs through are cut from their parent (searched
+in the whole lookup: `legacy = false`) and re-hung on the detour.  For every forest satisfying the invariant,
+every orphan among its component roots, every A* outcome. -/
+theorem repairOne_preserves (m : Machine) (wrap : Bool) (f f' : Forest) (pc : Chip × Chip)
+    (path : List (Nat × Chip)) (R R' : List Chip) (hi : L.RInv f R) (hchild : pc.2 ∈ R)
+    (hlive : chipOk m pc.2 = true) (hR'n : R'.Nodup) (hR' : ∀ r, r ∈ R' ↔ r ∈ R ∧ r ≠ pc.2)
+    (h : repairOne m wrap false f pc = .ok (f', path)) : L.RInv f' R' :=
+  L.repairOne_inv hi hchild hlive hR'n hR' h
+
+/-- **`avoidDeadLinks_valid`.**  For every machine (any dead chips / links), net, radius, tape, every processing
+order of the broken links and every A* outcome: whenever the model of `route()` with the FIXED repair loop
+(`legacy = false`) returns after the dead-link repair ran, the final `{chip: node}` forest unfolds - with the
+fuel the driver and the oracle use - to a tree that satisfies ALL clauses of `ValidTree`: rooted at the source
+chip, chips pairwise distinct (no node with two parents, no cycle), every hop a working link of a working chip
+to the adjacent working chip, leaves exactly the sinks; and every entry of the forest is on the tree (nothing is
+left disconnected).  No hypothesis on the input is needed: a run on an ill-formed input ends in a model error. -/
+theorem avoidDeadLinks_valid (m : Machine) (src : Chip) (dests : List Chip) (radius : Nat) (t : Tape)
+    (order : List (Chip × Chip)) (sinks : List Sink) (r : Result)
+    (h : routeNet m src dests radius t order sinks false = .ok r) (hr : r.repaired = true) :
+    ∃ tr, toTree r.forest r.leaves (r.forest.length + 1) r.root = some tr ∧ ValidTree m src sinks tr ∧
+      ∀ c, c ∈ r.forest.keys → c ∈ tr.chips := by
+  obtain ⟨hroot, hinv, hsk⟩ := L.routeNet_repaired_inv m src dests radius t order sinks r h hr
+  rw [hroot]
+  obtain ⟨tr, htr, hu, hall⟩ := L.rinv_unfolds hinv r.leaves
+  have hpart := routeNet_tree_partial m src dests radius t order sinks false r h (r.forest.length + 1) tr
+    (by rw [hroot]; exact htr)
+  refine ⟨tr, htr, ⟨hu.chip, hu.nodup, ?_, hpart.2, ?_⟩, hall⟩
+  · intro c l c' he
+    obtain ⟨h1, h2, h3, h4⟩ := hpart.1 c l c' he
+    exact ⟨h1, h2, h4 hr, h3⟩
+  · intro lf hlf
+    have hl := L.routeNet_leaves m src dests radius t order sinks false r h
+    rw [← hl] at hlf
+    refine hu.leavesAll lf hlf (hall _ ?_)
+    rw [hl] at hlf
+    simp only [expectedLeaves, List.mem_flatMap, Sink.leaves, List.mem_map] at hlf
+    obtain ⟨s, hs, rt, _, rfl⟩ := hlf
+    exact hsk s hs
+
+/-- the machine of corpus/C03/f3-two-parents-2x4.json (defect F3) -/
+def f3Machine : Machine := ⟨2, 4, [(1, 1)],
+  [((0, 0), 1), ((0, 0), 2), ((0, 1), 1), ((0, 1), 2), ((0, 1), 5), ((0, 2), 1), ((0, 2), 3), ((0, 3), 0),
+   ((0, 3), 3), ((0, 3), 4), ((1, 0), 4), ((1, 0), 5), ((1, 1), 2), ((1, 1), 4), ((1, 2), 0), ((1, 2), 3),
+   ((1, 3), 0), ((1, 3), 3), ((1, 3), 4)]⟩
+def f3Sinks : List Sink := [⟨1, (0, 3), 1, 10, 12⟩, ⟨2, (1, 3), 0, 0, 0⟩]
+/-- the recorded run of that case: destination order, tape and broken-link order as observed on the real code -/
+def f3Run (legacy : Bool) : Except Err Result :=
+  routeNet f3Machine (0, 1) [(0, 3), (1, 3)] 0 [812573, 156207, 14521, 1, 283507, 474291]
+    [((0, 1), (0, 2)), ((0, 1), (1, 2))] f3Sinks legacy
+/-- number of parent links arriving at the node of chip `c` -/
+def inDegree (f : Forest) (c : Chip) : Nat := ((f.flatMap (·.2)).filter (fun e => e.2 == c)).length
+
+/-- **The unfixed code really breaks the invariant** (defect F3, why `avoidDeadLinks_valid` is about
+`legacy = false`).  On the 2x4 machine of corpus/C03/f3-two-parents-2x4.json, with the recorded tape and orders,
+the repair loop that searches the parent only inside `lookup[child]` leaves the node of chip (0, 2) with TWO
+parent links (the detour moved its parent (0, 3) out of the orphaned subtree, so the old link is not found and a
+second one is added): the unfolded tree contains a chip twice and is not a valid routing tree.  The fixed loop on
+the same input gives every node at most one parent link and a valid tree. -/
+theorem legacy_two_parents_witness :
+    (match f3Run true with
+     | .ok r => r.repaired && decide (inDegree r.forest (0, 2) = 2) &&
+        (match toTree r.forest r.leaves (r.forest.length + 1) r.root with
+         | some t => !validTree f3Machine (0, 1) f3Sinks t && !nodupB t.chips
+         | none => false)
+     | .error _ => false) = true ∧
+    (match f3Run false with
+     | .ok r => r.repaired && r.forest.keys.all (fun c => decide (inDegree r.forest c ≤ 1)) &&
+        (match toTree r.forest r.leaves (r.forest.length + 1) r.root with
+         | some t => validTree f3Machine (0, 1) f3Sinks t
+         | none => false)
+     | .error _ => false) = true := by decide +kernel
+
+/-! ## Round 3: `route_only_failure` on machines with faults -/
+
+/-- **The disconnecting copy cannot fail on a well-formed tree** rooted at a working chip (no chip is visited
+twice: never `dupNode`; the `while to_visit` loop ends within `len + 1` iterations: never `fuel`; the source
+is alive: no assertion), and its lookup contains every working chip of the tree. -/
+theorem copyAndDisconnect_total (old : Forest) (rank : Chip → Nat) (root : Chip) (m : Machine)
+    (hw : L.WF old rank) (hkk : L.ClosedF old) (hrk : root ∈ old.keys) (hnp : L.NoParent old root)
+    (hlive : chipOk m root = true) :
+    ∃ cs, copyAndDisconnect old root m = .ok cs ∧
+      ∀ x, L.Below old root x → chipOk m x = true → x ∈ cs.lookup.keys :=
+  L.copyAndDisconnect_total hw hkk hrk hnp hlive
+
+/-- **The body of the repair loop fails only through A\***: with the forest invariant the subtree enumeration
+never runs out of fuel, the `Cycle created` assertion never fires, the path is never empty; either the body
+succeeds or `a_star` (called with sources that exclude the orphan and contain every other component root)
+reported `MachineHasDisconnectedSubregion`. -/
+theorem repairOne_only_disconnected (m : Machine) (wrap : Bool) (f : Forest) (pc : Chip × Chip) (R : List Chip)
+    (hi : L.RInv f R) (hchild : pc.2 ∈ R) (hlive : chipOk m pc.2 = true) :
+    ∃ sources, sources.contains pc.2 = false ∧ (∀ r, r ∈ R → r ≠ pc.2 → r ∈ sources) ∧
+      ((∃ f' path, repairOne m wrap false f pc = .ok (f', path)) ∨
+       (repairOne m wrap false f pc = .error .disconnected ∧
+        aStar pc.2 pc.1 sources m wrap = .error .disconnected)) :=
+  L.repairOne_cases hi hchild hlive
+
+/-- **`route_only_failure`, every machine** (fixed repair loop).  For a net whose source and sinks are placed on
+working chips (destinations inside the machine, every sink on the source chip or a destination chip), for every
+radius, tape and processing order: the only errors of the model of `route()` are
+`MachineHasDisconnectedSubregion` and the errors of the model's oracle inputs (tape exhausted / draw out of
+range / order not an ordering of the broken links - impossible for recordings of a real run); in particular
+never `dupNode`, `KeyError`, `TypeError`, an assertion or exhausted fuel (non-termination).  And
+`MachineHasDisconnectedSubregion` is raised only if the machine is not strongly connected. -/
+theorem route_only_failure (m : Machine) (src : Chip) (dests : List Chip) (radius : Nat) (t : Tape)
+    (order : List (Chip × Chip)) (sinks : List Sink)
+    (hs : chipOk m src = true) (hd : ∀ d, d ∈ dests → InRange m d)
+    (hsk : ∀ s, s ∈ sinks → (s.chip = src ∨ s.chip ∈ dests) ∧ chipOk m s.chip = true)
+    (e : Err) (h : routeNet m src dests radius t order sinks false = .error e) :
+    (e = .tape ∨ e = .badDraw ∨ e = .badOracle ∨ e = .disconnected) ∧
+    (e = .disconnected → stronglyConnected m = false) :=
+  L.routeNet_only_failure m src dests radius t order sinks hs hd hsk e h
+
+/-- **On a strongly connected machine `route()` does not fail** (only an oracle error of the model is left), and
+(by `avoidDeadLinks_valid` / `routeNet_tree_partial`) what it returns after a repair is a valid routing tree. -/
+theorem route_succeeds_strongly_connected (m : Machine) (hsc : stronglyConnected m = true) (src : Chip)
+    (dests : List Chip) (radius : Nat) (t : Tape) (order : List (Chip × Chip)) (sinks : List Sink)
+    (hs : chipOk m src = true) (hd : ∀ d, d ∈ dests → InRange m d)
+    (hsk : ∀ s, s ∈ sinks → (s.chip = src ∨ s.chip ∈ dests) ∧ chipOk m s.chip = true) :
+    (∃ r, routeNet m src dests radius t order sinks false = .ok r) ∨
+    (∃ e, routeNet m src dests radius t order sinks false = .error e ∧
+      (e = .tape ∨ e = .badDraw ∨ e = .badOracle)) := by
+  cases h : routeNet m src dests radius t order sinks false with
+  | ok r => exact Or.inl ⟨r, rfl⟩
+  | error e =>
+    right
+    obtain ⟨h1, h2⟩ := route_only_failure m src dests radius t order sinks hs hd hsk e h
+    refine ⟨e, rfl, ?_⟩
+    rcases h1 with h1 | h1 | h1 | h1
+    · exact Or.inl h1
+    · exact Or.inr (Or.inl h1)
+    · exact Or.inr (Or.inr h1)
+    · have := h2 h1; rw [hsc] at this; cases this
+
+/-- non-vacuity: on the 3 x 1 machine with dead chip (1, 0) and dead wrap links the net (0,0) -> (2,0) satisfies
+the hypotheses and `route()` reports the machine disconnected -/
+example : (match routeNet ⟨3, 1, [(1, 0)], [((2, 0), 0), ((2, 0), 1), ((2, 0), 5), ((2, 0), 2), ((2, 0), 4),
+      ((0, 0), 3), ((0, 0), 4), ((0, 0), 2), ((0, 0), 1), ((0, 0), 5)]⟩ (0, 0) [(2, 0)] 1 [0, 0, 0, 0, 0, 0, 0]
+      [((0, 0), (2, 0))] [⟨1, (2, 0), 1, 2, 4⟩] false with
+      | .error .disconnected => true
+      | _ => false) = true ∧
+    chipOk ⟨3, 1, [(1, 0)], [((2, 0), 0), ((2, 0), 1), ((2, 0), 5), ((2, 0), 2), ((2, 0), 4),
+      ((0, 0), 3), ((0, 0), 4), ((0, 0), 2), ((0, 0), 1), ((0, 0), 5)]⟩ (2, 0) = true := by decide +kernel
+
+/-! ## Round 3: the strong-connectivity oracle is complete -/
+
+/-- **The strong-connectivity oracle is complete.**  If `stronglyConnected m` evaluates to false, there are two
+working chips of which the first does not reach the second over working links between working chips (the
+breadth-first closure with fuel `w*h + 1` always ends with an empty frontier). -/
+theorem stronglyConnected_complete (m : Machine) (hs : stronglyConnected m = false) :
+    ∃ a b, chipOk m a = true ∧ chipOk m b = true ∧ ¬ Reach m a b :=
+  L.stronglyConnected_complete m hs
+
+/-- the executable predicate decides "every working chip reaches every working chip" -/
+theorem stronglyConnected_iff (m : Machine) :
+    stronglyConnected m = true ↔ ∀ a b, chipOk m a = true → chipOk m b = true → Reach m a b := by
+  constructor
+  · intro hs a b ha hb; exact stronglyConnected_sound m hs a b ha hb
+  · intro h
+    cases hs : stronglyConnected m with
+    | true => rfl
+    | false =>
+      obtain ⟨a, b, ha, hb, hn⟩ := stronglyConnected_complete m hs
+      exact absurd (h a b ha hb) hn
+
+/-- **The error clause of the property, for the model**: if `route()` (fixed repair loop) raises
+`MachineHasDisconnectedSubregion` on a net placed on working chips, then the machine really has two working
+chips of which one cannot reach the other over working links. -/
+theorem route_disconnected_is_real (m : Machine) (src : Chip) (dests : List Chip) (radius : Nat) (t : Tape)
+    (order : List (Chip × Chip)) (sinks : List Sink)
+    (hs : chipOk m src = true) (hd : ∀ d, d ∈ dests → InRange m d)
+    (hsk : ∀ s, s ∈ sinks → (s.chip = src ∨ s.chip ∈ dests) ∧ chipOk m s.chip = true)
+    (h : routeNet m src dests radius t order sinks false = .error .disconnected) :
+    ∃ a b, chipOk m a = true ∧ chipOk m b = true ∧ ¬ Reach m a b :=
+  stronglyConnected_complete m ((route_only_failure m src dests radius t order sinks hs hd hsk _ h).2 rfl)
+
+/-- non-vacuity: the 3 x 1 machine above is not strongly connected -/
+example : stronglyConnected ⟨3, 1, [(1, 0)], [((2, 0), 0), ((2, 0), 1), ((2, 0), 5), ((2, 0), 2), ((2, 0), 4),
+      ((0, 0), 3), ((0, 0), 4), ((0, 0), 2), ((0, 0), 1), ((0, 0), 5)]⟩ = false := by decide +kernel
+
+/-! ## Round 3: every successful run returns a valid routing tree -/
+
+/-- **Childless nodes of the `ner_net` forest are the source or destination chips** (every route hung below the
+tree ends at its destination) - any w, h ≥ 1, radius, tape, destination order. -/
+theorem nerNet_leaves_are_dests (src : Chip) (dests : List Chip) (w h : Nat) (wrap : Bool) (radius : Nat)
+    (t t' : Tape) (f : Forest) (hs : Cross.InBox w h src) (hd : ∀ d, d ∈ dests → Cross.InBox w h d)
+    (hn : nerNet src dests w h wrap radius t = .ok (f, t')) :
+    ∀ n, n ∈ f → n.2 = [] → n.1 = src ∨ n.1 ∈ dests := by
+  have hw : 1 ≤ w := by have := hs.1; have := hs.2.1; omega
+  have hh : 1 ≤ h := by have := hs.2.2.1; have := hs.2.2.2; omega
+  exact L.nerNet_leaf hw hh hs hd hn
+
+/-- **`routeNet_valid`: every successful run of `route()` (fixed repair loop) returns a valid routing tree**, on
+every machine - dead chips and links anywhere, repair entered or not - for every net whose source and
+destination chips are working chips, every radius, tape, destination order and broken-link order: the result is
+rooted at the source chip and unfolds (with the fuel the driver / oracle use) to a tree satisfying all five
+clauses of `ValidTree`.  (That the leaves are exactly the sinks includes: every sink chip is on the tree.) -/
+theorem routeNet_valid (m : Machine) (src : Chip) (dests : List Chip) (radius : Nat) (t : Tape)
+    (order : List (Chip × Chip)) (sinks : List Sink) (r : Result)
+    (hs : chipOk m src = true) (hd : ∀ d, d ∈ dests → chipOk m d = true)
+    (h : routeNet m src dests radius t order sinks false = .ok r) :
+    r.root = src ∧
+    ∃ tr, toTree r.forest r.leaves (r.forest.length + 1) r.root = some tr ∧ ValidTree m src sinks tr := by
+  cases hr : r.repaired with
+  | true =>
+    obtain ⟨tr, h1, h2, _⟩ := avoidDeadLinks_valid m src dests radius t order sinks r h hr
+    exact ⟨(L.routeNet_repaired_inv m src dests radius t order sinks r h hr).1, tr, h1, h2⟩
+  | false => exact L.routeNet_unrepaired_valid m src dests radius t order sinks false r hs hd h hr
+
+/-- non-vacuity of the unrepaired case on a machine with faults: 3x3 with a dead chip and dead links off the route -/
+example : (match routeNet ⟨3, 3, [(2, 2)], [((1, 1), 0), ((0, 2), 3)]⟩ (0, 0) [(1, 0)] 1 [0, 0, 0, 0, 0, 0, 0] []
+      [⟨1, (1, 0), 1, 2, 4⟩] false with
+    | .ok r => !r.repaired && (toTree r.forest r.leaves 10 r.root).isSome
+    | .error _ => false) = true := by decide +kernel
 
 end Rig.C03
